@@ -77,6 +77,21 @@ def run_history(fam, params, r, length):
     has_apply = hasattr(op, "apply") and hasattr(op, "taxis")
     if has_apply:
         kinds.append("apply")
+    if W.kind == "real":
+        # the very first products on this instance are made with single-precision inputs (results not judged: many kernels
+        # reject or round them); whatever they do, LATER double-precision results must still be those of a fresh instance
+        for f32, vec in ((op.matvec, pool_f[0]), (op.rmatvec, pool_a[0])):
+            try:
+                f32(np.asarray(vec, dtype=np.float32))
+            except Exception:
+                pass
+    elif W.kind == "complex":
+        # complex-linear operator: the first products see REAL-typed (float64) vectors; later complex results must be unaffected
+        for f64, vec in ((op.matvec, pool_f[0]), (op.rmatvec, pool_a[0])):
+            try:
+                f64(np.asarray(np.real(vec), dtype=np.float64))
+            except Exception:
+                pass
     held = []          # [array, saved_copy, label]
     problems = []
     calls = []         # (dir, xw, yw)
